@@ -61,7 +61,7 @@ PROPS = {
         "level_text": "Both readers are verified against one shared abstract model, so equal abstract entries give equal answers for remap_class, "
                       "remap_method, remap_frame (by line and by parameters). That the writer and the mapper builder produce equal abstract "
                       "entries is proved only for the record-interpretation blocks (unit u3) and otherwise assumed.",
-        "assumed": [BUILDERS_ASSUMED, "text / typed stack-trace remapping and signature deobfuscation through the cache are not decided (fmt / str pattern APIs)"],
+        "assumed": [BUILDERS_ASSUMED, "text stack-trace remapping is C07 (both copies against one specification, u12), signature deobfuscation is C16 (both copies against one reference, u17): each is equal for mapper and cache RELATIVE to equal remap_class / remap_frame answers; typed remapping is C08"],
         "design_ref": "DESIGN.md 5/C02",
     },
     "C03": {
@@ -225,7 +225,7 @@ PROPS = {
                     "Vec::into_iter().filter(f1).filter_map(f2).collect() = the kept and mapped items in order (one shim, closures carry their contracts)",
                     "string literals denote their UTF-8 bytes (axiom generated from the literals in the extracted text)",
                     "ProguardMapper::remap_class / ProguardCache::remap_class are abstract functions from the dotted name to the original name here (their own contracts: units u2 / u1); that the two agree for a cache written from the same mapping is C07-style refinement, not proved here",
-                    "ProguardMapper::deobfuscate_signature / ProguardCache::deobfuscate_signature (`.map(DeobfuscatedSignature::new)` with a function path as closure), DeobfuscatedSignature::parameters_types and its Display impl are not under contract (one-line glue)"],
+                    "DeobfuscatedSignature::parameters_types (iterator adapter) and its Display impl (`write!` of format_signature) are not under contract (one-line glue)"],
         "not_decided": ["that the class mapping used by the cache equals the mapper's (the statement's `mapper and cache agree` is proved relative to agreement of remap_class)"],
         "design_ref": "DESIGN.md 5/C16",
     },
@@ -264,13 +264,13 @@ PROPS = {
     },
     "C12": {
         "title": "No accepted buffer can make a query panic, overflow or read outside",
-        "units": [U1S, U4, U10C],
+        "units": [U1S, U4, U10C, U12C, U17],
         "kani": [],
         "technique": "Verus implicit obligations (overflow, bounds, callee preconditions, termination) on the cache reader with NO precondition on field values",
         "level_text": "Every cache reader function is verified with arbitrary u32 field values and arbitrary slice contents: no arithmetic "
                       "overflow, no out-of-bounds index/range, loops terminate.",
         "assumed": ["watto::StringTable::read / leb128 never panic (dependency, unverified)", "watto Pod casts (unsafe) are sound",
-                    "stack-trace text and signature queries are not covered (str/fmt code)"],
+                    "text stack-trace remapping (cache copy, u12) and signature deobfuscation through the cache (u17) are verified without preconditions over the str / fmt shims of those units (assumed std contracts, see C07 / C16)"],
         "design_ref": "DESIGN.md 5/C12",
     },
     "C13": {
